@@ -17,6 +17,7 @@ import (
 	"com.tuntun.rangers/node/src/service"
 	"com.tuntun.rangers/node/src/storage/account"
 	"com.tuntun.rangers/node/src/utility"
+	"com.tuntun.rangers/node/src/vm"
 	"verif/harness/hx"
 )
 
@@ -165,6 +166,36 @@ func classify(txType int32, msg string) string {
 		return "overflow"
 	}
 	return "other"
+}
+
+// stake opcodes: the contract at `contract` (which must be the account of a miner for anything to happen)
+// executes STAKE / UNSTAKE / UNSTAKEALL on itself, called by `origin` through the real EVM.
+func stakeOpCode(op byte, self common.Address, amount *big.Int) []byte {
+	var b []byte
+	b = append(b, 0x73)
+	b = append(b, self[:]...) // PUSH20 pointer address (popped second)
+	if op != 0xeb {
+		v := make([]byte, 32)
+		ab := amount.Bytes()
+		copy(v[32-len(ab):], ab)
+		b = append(b, 0x7f)
+		b = append(b, v...) // PUSH32 value (popped first)
+	}
+	return append(b, op, 0x50, 0x00) // op POP STOP
+}
+
+func (w *world) runStakeOp(op byte, origin []byte, contract []byte, amount *big.Int) string {
+	k := common.BytesToAddress(contract)
+	w.adb.SetCode(k, stakeOpCode(op, k, amount))
+	ctx := vm.Context{CanTransfer: vm.CanTransfer, Transfer: vm.Transfer, Origin: common.BytesToAddress(origin),
+		Coinbase: common.Address{}, BlockNumber: new(big.Int).SetUint64(w.height), Time: big.NewInt(1700000000),
+		Difficulty: big.NewInt(123), GasPrice: big.NewInt(1000000000), GasLimit: 900000000}
+	evm := vm.NewEVMWithNFT(ctx, w.adb, w.adb)
+	_, _, _, err := evm.Call(vm.AccountRef(ctx.Origin), k, nil, ctx.GasLimit, big.NewInt(0))
+	if err != nil {
+		return "err"
+	}
+	return "ok"
 }
 
 func escrowAddr(height uint64) common.Address {
@@ -385,6 +416,13 @@ func (ip *interp) exec(line string) string {
 	case "bad":
 		ds := badData[t[1]]
 		return w.runTx(badType[t[1]], bs(t[2]), ds[int(u64(t[3]))%len(ds)])
+	case "vmstake", "vmunstake", "vmunstakeall":
+		amt := new(big.Int)
+		if len(t) > 3 {
+			amt, _ = new(big.Int).SetString(t[3], 10)
+		}
+		op := map[string]byte{"vmstake": 0xee, "vmunstake": 0xef, "vmunstakeall": 0xeb}[t[0]]
+		return w.runStakeOp(op, bs(t[1]), bs(t[2]), amt)
 	case "endblock":
 		return w.endBlock(u64(t[1]))
 	case "dump":
